@@ -1,0 +1,33 @@
+//go:build verif
+
+package metadata
+
+// Contracts checked by /verif (govc). Comment-only: no executable code.
+// Read-only metadata mode: loads are those of the wrapped backend, nothing is ever written (C02).
+
+//@ func (*readMetadata).Save
+//@ props C02
+//@ ensures.never_writes[C02] calls(metadata.Metadata.Save) == 0 && calls(metadata.Metadata.Clear) == 0 && calls(metadata.Metadata.Load) == 0
+//@ ensures.ok[C02] result == nil
+//@ nopanic
+//@ modifies nothing
+
+//@ func (*readMetadata).Clear
+//@ props C02
+//@ ensures.never_writes[C02] calls(metadata.Metadata.Save) == 0 && calls(metadata.Metadata.Clear) == 0 && calls(metadata.Metadata.Load) == 0
+//@ ensures.ok[C02] result == nil
+//@ nopanic
+//@ modifies nothing
+
+//@ func (*readMetadata).Load
+//@ props C02
+//@ requires s != nil && s.metadata != nil
+//@ ensures.identical[C02] calls(metadata.Metadata.Load) == 1 && arg(metadata.Metadata.Load, 0, recv) == s.metadata && arg(metadata.Metadata.Load, 0, vbIds) == vbIds && arg(metadata.Metadata.Load, 0, bucketUUID) == bucketUUID
+//@ ensures.same_result[C02] result0 == ret(metadata.Metadata.Load, 0, 0) && result1 == ret(metadata.Metadata.Load, 0, 1) && result2 == ret(metadata.Metadata.Load, 0, 2)
+//@ ensures.never_writes[C02] calls(metadata.Metadata.Save) == 0 && calls(metadata.Metadata.Clear) == 0
+//@ modifies calls(metadata.Metadata.Load)
+
+//@ func NewReadMetadata
+//@ props C02
+//@ ensures.wraps[C02] typeis(result, "*readMetadata") && as(result, "*readMetadata").metadata == metadata && fresh(as(result, "*readMetadata"))
+//@ modifies nothing
